@@ -80,6 +80,15 @@ let () =
     match list s with
     | [r; b] -> of_bool (M.c17_record_ok (result_ r) (bool_ b))
     | _ -> failwith "c17-record: bad case");
+  Registry.register "post" (fun s ->
+    (* (project config steps sched flag k n rm_ok steps2) -> (class fault left complete vouches recovery current) *)
+    match list s with
+    | [p; c; h; w; flag; k; n; rm; h2] ->
+        let o = M.c17_post (project_ p) (config_ c) (list_ hstep_ h) (sched_ w) (bool_ flag) (nat_ k) (nat_ n) (bool_ rm)
+                  (list_ hstep_ h2) in
+        List [of_bool o.M.po_class; of_result o.M.po_fault; of_bool o.M.po_left; of_bool o.M.po_left_complete;
+              of_bool o.M.po_vouches; of_result o.M.po_recovery; of_bool o.M.po_current]
+    | _ -> failwith "c17-post: bad case");
   Registry.register "oracle" (fun s ->
     match list s with
     | [b; rf; v; cf; rr; cr; fr] ->
